@@ -27,10 +27,15 @@ def k3(shape, *, history=False, utxos=True):
         for bi, (bspec, fl) in enumerate(zip(shape['blocks'], shape['flush'])):
             blk = sim.gen_block(bspec, f'b{bi}')
             sim.advance(blk)
-            if fl == 'h':
-                sim.flush(False)
-            elif fl == 'f':
-                sim.flush(True)
+            for step in fl:
+                if step == 'h':
+                    sim.flush(False)
+                elif step == 'f':
+                    sim.flush(True)
+                elif step == 'r':
+                    sim.open()                                   # clean restart (only directly after an f)
+                elif step == 's':
+                    chain.run(sim.db.open_for_serving())         # first catch-up: re-open for serving, carry on
         sim.flush(True)
         chain.check_index(sim, 'final', check_history=history, check_utxos=utxos, check_limits=history)
         if shape.get('reopen'):
@@ -104,6 +109,12 @@ def k3_shapes(tier):
     for blocks in lists:
         for fl, reopen in (tails[:3] if tier == 'quick' else tails):
             out.append({'blocks': blocks, 'flush': fl, 'reopen': reopen, 'collide': []})
+    # the state is read back from disk in mid-run: a clean restart / the re-open for serving of the first catch-up
+    # directly after a full flush, then more blocks touching the same script hashes
+    b3r = [{'cb': 'A'}, {'cb': 'A', 'txs': [{'ins': 1, 'outs': 'AS'}]}, {'cb': 'A', 'txs': [{'ins': 1, 'outs': 'AB'}]}]
+    for fl in ([['fr', 'n', 'n'], ['hfs', 'h', 'n']] if tier == 'quick' else
+               [['fr', 'n', 'n'], ['hfs', 'h', 'n'], ['fs', 'fr', 'n'], ['n', 'fs', 'h'], ['fr', 'fr', 'h']]):
+        out.append({'blocks': b3r, 'flush': fl, 'reopen': True, 'collide': []})
     # the flat files split into tiny physical files (two records each): reads and writes cross file boundaries
     b3 = [{'cb': 'A'}, {'cb': 'A', 'txs': [{'ins': 1, 'outs': 'AB'}, {'ins': 1, 'outs': 'S'}]}, {'cb': 'B', 'txs': [{'ins': 1, 'outs': 'C'}]}]
     for fl in ([['f', 'n', 'n'], ['f', 'h', 'n']] if tier == 'quick' else
@@ -369,7 +380,7 @@ KERNELS = [
                   'values (64 bit, <= 21e14), scripts marked S/s (3 / 1 symbolic bytes; others concrete incl. '
                   'OP_RETURN, OP_FALSE OP_RETURN, empty), spend selectors (every valid spend graph), activation '
                   'height (any integer); flush schedule enumerated (none / history-only / full after each block, incl. '
-                  'right after the last one); 2 (quick) / 5 (thorough) shapes with the flat files split into physical '
+                  'right after the last one; clean restarts and re-opens for serving in mid-run); 2 (quick) / 5 (thorough) shapes with the flat files split into physical '
                   'files of two records each',
            outside='longer chains, more transactions per block, prefetch batching (not part of the index state), '
                    'RocksDB; flat files of the real physical size (16 MB / 2 MB) - the split is exercised at a scaled size',
